@@ -4,10 +4,12 @@
 (* Engine.tla.  Lines of the trace:                                        *)
 (*  [ev |-> "reset", case]                                                 *)
 (*  [ev |-> "step", case, op, ret, res, again, saved,   sequential step    *)
+(*   (res/again/saved: [st, paras, hdr, tbl] projections of documents)     *)
 (*   (ret = "fatal" | "timeout": the step killed the executing process)    *)
-(*   tmod, bmod, dmod, ptmod, pbmod, pdmod, cache, probe]                  *)
+(*   tmod, bmod, dmod, ptmod, pbmod, pdmod, atmod, abmod, cache, probe]    *)
 (*  [ev |-> "conc", case, mode, setup, calls, final,    one concurrent run *)
-(*   races, fatal, gates]                                                  *)
+(*   races, fatal, gates, pre]   (pre: [n, e, data, res] renders with       *)
+(*                                undocumented data done alone after setup) *)
 (* The judge never blocks: deviations become witnesses and the reference   *)
 (* state is resynchronised on what was observed.                           *)
 (***************************************************************************)
@@ -21,8 +23,9 @@ VARIABLES l,     \* next line
           pd,    \* data of the observation renders
           pp,    \* observation renders of the previous step
           hp,    \* TRUE iff pp holds a previous step of this behaviour
+          memo,  \* <<value id, entry, data>> -> the first render of that value with that data in this behaviour
           wit
-tvars == <<l, cur, np, pd, pp, hp, wit>>
+tvars == <<l, cur, np, pd, pp, hp, memo, wit>>
 
 SeqToSet(s) == {s[i] : i \in 1..Len(s)}
 \* JSON has no sets: the block set of a definition arrives as an array
@@ -37,6 +40,8 @@ Probed(r) == r.st # ""
 
 Crashed(e) == e.ret \in {"fatal", "timeout"}     \* the step killed (or hung) the executing process
 
+MemoKey(v, op) == <<v.id, op.e, op.data>>
+
 JudgeStep(e) ==
   IF Crashed(e) THEN {<<"crash", e.ret, e.op.op>>} ELSE
   LET op   == Norm(e.op)
@@ -48,12 +53,21 @@ JudgeStep(e) ==
       \cup (IF e.ret # "panic" /\ e.ret # Ret(cur, op) THEN {<<"ret", name>>} ELSE {})
       \cup (IF \E n \in np : e.cache[n] # Lookup(exp.cache, n).id THEN {<<"cache", name>>} ELSE {})
       \* the render the behaviour asked for: result in memory, result as saved, and the same call repeated
+      \* (the text is demanded for documented data only; of every render: the same result as the same value gave for
+      \* the same data earlier in this behaviour, whatever happened in between)
       \cup (IF isR /\ e.ret # "panic" THEN
-                 Viol_Render(v, op.data, op.e, e.res)
-                 \cup (IF Probed(e.saved) /\ e.saved.st = "ok" THEN Viol_Render(v, op.data, op.e, e.saved)
+                 (IF Documented(op.data) THEN Viol_Render(v, op.data, op.e, e.res) ELSE {})
+                 \cup (IF Probed(e.saved) /\ e.saved.st = "ok"
+                       THEN (IF Documented(op.data) THEN Viol_Render(v, op.data, op.e, e.saved) ELSE {})
                        ELSE IF Probed(e.saved) THEN {<<"render-unsavable", op.e, e.saved.st>>} ELSE {})
                  \cup (IF e.again # e.res THEN {<<"nondeterministic", op.e>>} ELSE {})
+                 \cup (IF v.id # 0 /\ MemoKey(v, op) \in DOMAIN memo /\ memo[MemoKey(v, op)] # e.res
+                       THEN {<<"render-depends-on-history", "same-value-same-data">>} ELSE {})
             ELSE {})
+      \* analysis: the template rendered twice with the data the analysis asks for (res, again)
+      \cup (IF name = "Analyze" /\ e.again # e.res THEN {<<"nondeterministic", "required-data">>} ELSE {})
+      \* ... and the analysis itself only reads (atmod / abmod: what changed between its call and its return)
+      \cup Each("template-modified-by-analysis", e.atmod) \cup Each("basedoc-modified-by-analysis", e.abmod)
       \* rendering must leave the templates, their base documents and the data alone
       \cup Each("template-modified", e.tmod) \cup Each("template-modified", e.ptmod)
       \cup Each("basedoc-modified", e.bmod) \cup Each("basedoc-modified", e.pbmod)
@@ -75,20 +89,23 @@ Resync(e) ==
   IN [cache |-> [n \in keep |-> exp.cache[n]],
       nid |-> IF exp.nid > MaxId(e) THEN exp.nid ELSE MaxId(e) + 1]
 
-TInit == /\ l = 1 /\ cur = InitSt /\ wit = {} /\ pp = <<>> /\ hp = FALSE
+TInit == /\ l = 1 /\ cur = InitSt /\ wit = {} /\ pp = <<>> /\ hp = FALSE /\ memo = <<>>
          /\ np = NamePool
          /\ pd = ProbeData
 
 TReset == /\ l <= Len(Trace) /\ Trace[l].ev = "reset"
-          /\ cur' = InitSt /\ pp' = <<>> /\ hp' = FALSE /\ l' = l + 1
+          /\ cur' = InitSt /\ pp' = <<>> /\ hp' = FALSE /\ memo' = <<>> /\ l' = l + 1
           /\ UNCHANGED <<wit, np, pd>>
 
 TStep == /\ l <= Len(Trace) /\ Trace[l].ev = "step"
          /\ LET e == Trace[l] IN
               IF e.op.op = "Config"
               THEN /\ np' = SeqToSet(e.op.names) /\ pd' = e.op.data
-                   /\ UNCHANGED <<cur, pp, hp, wit>>
+                   /\ UNCHANGED <<cur, pp, hp, memo, wit>>
               ELSE /\ wit' = AddWit(wit, Tag(JudgeStep(e)), e.case)
+                   /\ memo' = LET v == IF e.op.op = "Render" THEN Lookup(cur.cache, e.op.n) ELSE None
+                              IN IF e.op.op = "Render" /\ ~Crashed(e) /\ e.ret = "ok" /\ v.id # 0 /\ MemoKey(v, e.op) \notin DOMAIN memo
+                                 THEN (MemoKey(v, e.op) :> e.res) @@ memo ELSE memo
                    /\ IF Crashed(e) THEN cur' = Apply(cur, Norm(e.op)) /\ pp' = pp /\ hp' = FALSE
                       ELSE cur' = Resync(e) /\ pp' = e.probe /\ hp' = TRUE
                    /\ UNCHANGED <<np, pd>>
@@ -100,10 +117,27 @@ RECURSIVE RunAll(_, _)
 RunAll(s, ops) == IF ops = <<>> THEN s ELSE RunAll(Apply(s, ops[1]), Tail(ops))
 
 \* call c explained by the reference machine in state s
-CallOK(s, c) ==
+\* A render with documented data returns what the reference machine returns. Of a render with undocumented data only
+\* what C17 states is demanded: its status, and the result the same value gave for the same data alone before the
+\* threads started (e.pre) or to another call of this run (m: <<value id, entry, data>> -> result).
+RefKey(s, op) == <<Lookup(s.cache, op.n).id, op.e, op.data>>
+CallOK(s, c, m) ==
   LET op == Norm(c.op) IN
     /\ c.ret = Ret(s, op)
-    /\ (op.op = "Render" => c.res = RenderRet(s, op))
+    /\ (op.op = "Render" =>
+          IF Documented(op.data) THEN c.res = RenderRet(s, op)
+          ELSE /\ c.res.st = RenderRet(s, op).st
+               /\ (RefKey(s, op) \in DOMAIN m => c.res = m[RefKey(s, op)]))
+Noted(s, c, m) ==
+  LET op == Norm(c.op) IN
+    IF op.op = "Render" /\ ~Documented(op.data) /\ Lookup(s.cache, op.n).id # 0 /\ RefKey(s, op) \notin DOMAIN m
+    THEN (RefKey(s, op) :> c.res) @@ m ELSE m
+RECURSIVE PreMemo(_, _, _)
+PreMemo(s, pre, k) ==
+  IF k = 0 THEN <<>>
+  ELSE LET m == PreMemo(s, pre, k - 1)
+           key == <<Lookup(s.cache, pre[k].n).id, pre[k].e, pre[k].data>>
+       IN IF key[1] # 0 /\ pre[k].res.st = "ok" /\ key \notin DOMAIN m THEN (key :> pre[k].res) @@ m ELSE m
 
 FinalOK(s, e) ==
   \A n \in SeqToSet(e.names), en \in Entries :
@@ -111,13 +145,13 @@ FinalOK(s, e) ==
 
 \* some order of the remaining calls that respects real time (a call that ended before another
 \* began comes first) is a run of the reference machine producing exactly what was observed
-RECURSIVE Lin(_, _, _)
-Lin(s, rem, e) ==
+RECURSIVE Lin(_, _, _, _)
+Lin(s, rem, e, m) ==
   IF rem = {} THEN FinalOK(s, e)
   ELSE \E i \in rem :
          /\ ~\E j \in rem : j # i /\ e.calls[j].e < e.calls[i].b
-         /\ CallOK(s, e.calls[i])
-         /\ Lin(Apply(s, Norm(e.calls[i].op)), rem \ {i}, e)
+         /\ CallOK(s, e.calls[i], m)
+         /\ Lin(Apply(s, Norm(e.calls[i].op)), rem \ {i}, e, Noted(s, e.calls[i], m))
 
 ConcOps(e) == SeqToSet(e.setup) \cup {e.calls[i].op : i \in 1..Len(e.calls)}
 ConcClass(e) == IF \E o \in ConcOps(e) : o.op = "Load" /\ o.def.ext # "" THEN "inherit" ELSE "flat"
@@ -125,7 +159,8 @@ ConcClass(e) == IF \E o \in ConcOps(e) : o.op = "Load" /\ o.def.ext # "" THEN "i
 \* which kinds of calls of different threads overlapped in real time ("sequential" if none did)
 Desc(c) == IF c.op.op = "Load" THEN "Load:" \o c.op.def.k
            ELSE IF c.op.op = "Render" THEN "Render:" \o c.op.e ELSE c.op.op
-Vocab == <<"Load:str", "Load:doc", "Render:doc", "Render:tpl", "Remove", "Clear", "Get", "Validate", "SetBasePath">>
+Vocab == <<"Load:str", "Load:doc", "Load:file", "Render:doc", "Render:tpl", "Render:rnd", "Remove", "Clear", "Get", "Validate",
+           "SetBasePath", "Analyze">>
 Overlapped(e) ==
   {Desc(e.calls[i]) : i \in {k \in 1..Len(e.calls) :
       \E j \in 1..Len(e.calls) : /\ e.calls[j].t # e.calls[k].t
@@ -141,17 +176,17 @@ JudgeConc(e) ==
       \cup (IF e.fatal # "" THEN {<<"race", ConcClass(e), "fatal: " \o e.fatal>>} ELSE {})
       \cup (IF e.stuck THEN {<<"deadlock", e.mode>>} ELSE {})
       \cup {<<"panic", "concurrent", e.calls[i].op.op>> : i \in {j \in 1..Len(e.calls) : e.calls[j].ret = "panic"}}
-      \cup (IF ~e.stuck /\ e.fatal = "" /\ ~Lin(s0, 1..Len(e.calls), e)
+      \cup (IF ~e.stuck /\ e.fatal = "" /\ ~Lin(s0, 1..Len(e.calls), e, PreMemo(s0, e.pre, Len(e.pre)))
             THEN {<<"not-linearizable", e.mode, ConcClass(e), OverlapClass(e)>>} ELSE {})
 
 TConc == /\ l <= Len(Trace) /\ Trace[l].ev = "conc"
          /\ wit' = AddWit(wit, Tag(JudgeConc(Trace[l])), Trace[l].case)
          /\ l' = l + 1
-         /\ UNCHANGED <<cur, np, pd, pp, hp>>
+         /\ UNCHANGED <<cur, np, pd, pp, hp, memo>>
 
 TDone == /\ l = Len(Trace) + 1
          /\ PrintT(<<"WZDONE", l - 1, ToJson(wit)>>)
-         /\ l' = l + 1 /\ UNCHANGED <<cur, np, pd, pp, hp, wit>>
+         /\ l' = l + 1 /\ UNCHANGED <<cur, np, pd, pp, hp, memo, wit>>
 
 TNext == TReset \/ TStep \/ TConc \/ TDone
 TSpec == TInit /\ [][TNext]_tvars
